@@ -1,6 +1,198 @@
-//! C02: implementation-side case runners (see props/c02.py). Stub until the property is built.
+//! C02: every loader on arbitrary bytes (see props/c02.py).
+//!
+//! Kinds (byte strings travel as hex, `-` = empty)
+//!   c2load <ext> <hex>     `Buffer::from_bytes("verif.<ext>", bytes)`; ext `-` = a path without extension.
+//!                          [0] = Err(..);  [1, w, h, layers, ice, pal_len, fonts, cells, s1, s2, s3] = Ok(buffer) with a
+//!                          position-weighted digest of `Buffer::get_char` over the picture (cells = -2, sums 0 when the
+//!                          picture is larger than 2 000 000 cells or has a negative size)
+//!   c2sauce <hex>          `SauceData::extract`: [0] Err, [1] Ok(None), [2, header_len, w, h, ice] Ok(Some)
+//!   c2font <hex>           `BitFont::from_bytes`: [0] | [1, w, h, length]
+//!   c2tdf <hex>            `TheDrawFont::from_tdf_bytes`: [0] | [1, nfonts]
+//!   c2pal <fmt 0..5> <hex> `Palette::load_palette` (Ice, Hex, Pal, Gpl, Txt, Ase): [0] | [1, n, sum r, sum g, sum b]
+//!   c2palx <fmt 0..5> <n>  `Palette::export_palette` of an n-colour palette: [len]
+//!   c2mk <ext> <w> <h> <seed> <sauce 0|1> <compress 0|1> <style>   a picture computed from the seed, saved by the
+//!                          engine's own writer: [0] when saving fails, else [1, bytes…]
+//!                          style 0: 8-bit characters, 16 colours; 1: printable ASCII only; 2: with runs
+use crate::util::unhex;
 use crate::Obs;
+use icy_engine::{
+    AttributedChar, BitFont, Buffer, Color, IceMode, Palette, PaletteFormat, SauceData, SauceString, SaveOptions, TextAttribute, TextPane, TheDrawFont,
+};
+use std::path::PathBuf;
 
-pub fn run(_kind: &str, _args: &[&str]) -> Option<Obs> {
-    None
+fn mix(seed: u32, i: u32) -> u32 {
+    let mut x = seed ^ i.wrapping_mul(0x9E37_79B1);
+    x ^= x >> 16;
+    x = x.wrapping_mul(0x85EB_CA6B);
+    x ^= x >> 13;
+    x = x.wrapping_mul(0xC2B2_AE35);
+    x ^= x >> 16;
+    x
+}
+
+fn pal_format(i: &str) -> PaletteFormat {
+    match i {
+        "0" => PaletteFormat::Ice,
+        "1" => PaletteFormat::Hex,
+        "2" => PaletteFormat::Pal,
+        "3" => PaletteFormat::Gpl,
+        "4" => PaletteFormat::Txt,
+        _ => PaletteFormat::Ase,
+    }
+}
+
+fn digest(buf: &Buffer) -> Vec<i64> {
+    let (w, h) = (buf.get_width(), buf.get_height());
+    let mut v = vec![
+        1,
+        w as i64,
+        h as i64,
+        buf.layers.len() as i64,
+        buf.ice_mode.to_byte() as i64,
+        buf.palette.len() as i64,
+        buf.font_iter().count() as i64,
+    ];
+    if w < 0 || h < 0 || (w as i64) * (h as i64) > 2_000_000 {
+        v.extend([-2, 0, 0, 0]);
+        return v;
+    }
+    // Buffer::get_char subtracts the layer offset: a loaded layer offset of i32::MIN overflows there. That is after the
+    // load returned (not a loader failure): reported as cells = -3.
+    let sums = std::panic::catch_unwind(std::panic::AssertUnwindSafe(|| cell_sums(buf, w, h)));
+    match sums {
+        Ok((s1, s2, s3)) => v.extend([(w as i64) * (h as i64), s1, s2, s3]),
+        Err(_) => v.extend([-3, 0, 0, 0]),
+    }
+    v
+}
+
+fn cell_sums(buf: &Buffer, w: i32, h: i32) -> (i64, i64, i64) {
+    let m: i64 = 1_000_000_007;
+    let (mut s1, mut s2, mut s3, mut i) = (0i64, 0i64, 0i64, 1i64);
+    for y in 0..h {
+        for x in 0..w {
+            let c = buf.get_char((x, y));
+            for val in [
+                c.ch as i64,
+                c.attribute.get_foreground() as i64,
+                c.attribute.get_background() as i64,
+                c.attribute.attr as i64,
+                c.get_font_page() as i64,
+            ] {
+                let val = val % m;
+                s1 = (s1 + val) % m;
+                s2 = (s2 + (i % m) * val) % m;
+                s3 = (s3 + ((i % m) * (i % m) % m) * val) % m;
+                i += 1;
+            }
+        }
+    }
+    (s1, s2, s3)
+}
+
+fn make(args: &[&str]) -> Vec<i64> {
+    let ext = args[0];
+    let (w, h): (i32, i32) = (args[1].parse().unwrap(), args[2].parse().unwrap());
+    let seed: u32 = args[3].parse().unwrap();
+    let mut opt = SaveOptions::new();
+    opt.save_sauce = args[4] == "1";
+    opt.compress = args[5] == "1";
+    opt.lossles_output = true;
+    let style: u32 = args[6].parse().unwrap();
+    let mut buf = Buffer::new((w, h));
+    buf.ice_mode = if seed & 1 == 0 { IceMode::Ice } else { IceMode::Blink };
+    if ext == "ata" {
+        buf.buffer_type = icy_engine::BufferType::Atascii;
+    }
+    if opt.save_sauce {
+        let mut s = SauceData::default();
+        s.title = SauceString::from("verif title");
+        s.author = SauceString::from("c02");
+        if seed & 2 != 0 {
+            s.comments.push(SauceString::from("first comment"));
+            s.comments.push(SauceString::from("second comment"));
+        }
+        s.use_ice = seed & 1 == 0;
+        buf.set_sauce(Some(s), false);
+        buf.set_size((w, h));
+    }
+    let mut i = 0u32;
+    for y in 0..h {
+        for x in 0..w {
+            let a = mix(seed, i);
+            let ch = match style {
+                0 => a & 255,
+                1 => 33 + (a % 94),
+                _ => {
+                    if a & 7 == 0 {
+                        (a >> 8) & 255
+                    } else {
+                        65 + (i / 6 % 3)
+                    }
+                }
+            };
+            let (fg, bg) = if style == 2 { ((i / 9) % 16, (i / 14) % 8) } else { ((a >> 8) % 16, (a >> 20) % 8) };
+            let mut at = TextAttribute::new(fg, bg);
+            if style == 0 && a >> 28 == 3 {
+                at.set_is_blinking(true);
+            }
+            buf.layers[0].set_char((x, y), AttributedChar::new(char::from_u32(ch).unwrap(), at));
+            i += 1;
+        }
+    }
+    match buf.to_bytes(ext, &opt) {
+        Ok(b) => {
+            let mut v = vec![1];
+            v.extend(b.iter().map(|x| *x as i64));
+            v
+        }
+        Err(_) => vec![0],
+    }
+}
+
+pub fn run(kind: &str, args: &[&str]) -> Option<Obs> {
+    let v = match kind {
+        "c2load" => {
+            let name = if args[0] == "-" { PathBuf::from("verif") } else { PathBuf::from(format!("verif.{}", args[0])) };
+            match Buffer::from_bytes(&name, true, &unhex(args[1])) {
+                Ok(b) => digest(&b),
+                Err(_) => vec![0],
+            }
+        }
+        "c2sauce" => match SauceData::extract(&unhex(args[0])) {
+            Err(_) => vec![0],
+            Ok(None) => vec![1],
+            Ok(Some(s)) => vec![2, s.sauce_header_len as i64, s.buffer_size.width as i64, s.buffer_size.height as i64, s.use_ice as i64],
+        },
+        "c2font" => match BitFont::from_bytes("verif", &unhex(args[0])) {
+            Err(_) => vec![0],
+            Ok(f) => vec![1, f.size.width as i64, f.size.height as i64, f.length as i64],
+        },
+        "c2tdf" => match TheDrawFont::from_tdf_bytes(&unhex(args[0])) {
+            Err(_) => vec![0],
+            Ok(f) => vec![1, f.len() as i64],
+        },
+        "c2pal" => match Palette::load_palette(&pal_format(args[0]), &unhex(args[1])) {
+            Err(_) => vec![0],
+            Ok(p) => {
+                let (mut r, mut g, mut b) = (0i64, 0i64, 0i64);
+                for i in 0..p.len() {
+                    let (x, y, z) = p.get_rgb(i as u32);
+                    r += x as i64 * (i as i64 + 1);
+                    g += y as i64 * (i as i64 + 1);
+                    b += z as i64 * (i as i64 + 1);
+                }
+                vec![1, p.len() as i64, r, g, b]
+            }
+        },
+        "c2palx" => {
+            let n: u32 = args[1].parse().unwrap();
+            let cols: Vec<Color> = (0..n).map(|i| Color::new((i * 7) as u8, (i * 13) as u8, (i * 29) as u8)).collect();
+            let p = Palette::from_slice(&cols);
+            vec![p.export_palette(&pal_format(args[0])).len() as i64]
+        }
+        "c2mk" => make(args),
+        _ => return None,
+    };
+    Some(Ok(v))
 }
